@@ -20,37 +20,42 @@ def agree(h, m):
         return m[6:] in h
     return False
 
-seed = int(sys.argv[1]) if len(sys.argv) > 1 else 1
-n = int(sys.argv[2]) if len(sys.argv) > 2 else 2000
-cfgs = sys.argv[3].split(',') if len(sys.argv) > 3 else ['default']
-rng = random.Random(seed)
-items = [gen_item(rng) if rng.random() < 0.8 else gen_malformed(rng) for _ in range(n)]
-for cfg in cfgs:
-    hook, log = run_hook(cfg, ['2 ' + it.rust() for it in items])
-    if hook is None:
-        print(log[-3000:]); sys.exit(2)
-    model = run_model('expand', cfg, [it.sexp() for it in items])
-    assert len(hook) == len(model) == len(items), (len(hook), len(model), len(items))
-    bad = 0
-    kinds = collections.Counter()
-    for it, h, m in zip(items, hook, model):
-        kinds[h.split(' ')[0] + (' ' + h[4:40] if h.startswith('err') else '')] += 1
-        if not agree(h, m):
-            bad += 1
-            if bad <= 6:
-                print('--- DISAGREE', cfg); print(it.rust()); print(it.sexp())
-                hi, mi = split_impls(h), split_impls(m)
-                if hi and mi and len(hi) == len(mi):
-                    for (a, x), (b, y) in zip(hi, mi):
-                        if x != y:
-                            xs, ys = x.split(' '), y.split(' ')
-                            i = next((i for i, (p, q) in enumerate(zip(xs, ys)) if p != q), min(len(xs), len(ys)))
-                            print(' trait', a, b, 'first diff at', i)
-                            print('  hook :', ' '.join(xs[max(0, i-12):i+12]))
-                            print('  model:', ' '.join(ys[max(0, i-12):i+12]))
-                            break
-                else:
-                    print(' hook :', h[:300]); print(' model:', m[:300])
-    print(cfg, 'items', len(items), 'disagree', bad)
-    for k, v in kinds.most_common(60):
-        print('   %5d %s' % (v, k))
+def main():
+    seed = int(sys.argv[1]) if len(sys.argv) > 1 else 1
+    n = int(sys.argv[2]) if len(sys.argv) > 2 else 2000
+    cfgs = sys.argv[3].split(',') if len(sys.argv) > 3 else ['default']
+    rng = random.Random(seed)
+    items = [gen_item(rng) if rng.random() < 0.8 else gen_malformed(rng) for _ in range(n)]
+    for cfg in cfgs:
+        hook, log = run_hook(cfg, ['2 ' + it.rust() for it in items])
+        if hook is None:
+            print(log[-3000:]); sys.exit(2)
+        model = run_model('expand', cfg, [it.sexp() for it in items])
+        assert len(hook) == len(model) == len(items), (len(hook), len(model), len(items))
+        bad = 0
+        kinds = collections.Counter()
+        for it, h, m in zip(items, hook, model):
+            kinds[h.split(' ')[0] + (' ' + h[4:40] if h.startswith('err') else '')] += 1
+            if not agree(h, m):
+                bad += 1
+                if bad <= 6:
+                    print('--- DISAGREE', cfg); print(it.rust()); print(it.sexp())
+                    hi, mi = split_impls(h), split_impls(m)
+                    if hi and mi and len(hi) == len(mi):
+                        for (a, x), (b, y) in zip(hi, mi):
+                            if x != y:
+                                xs, ys = x.split(' '), y.split(' ')
+                                i = next((i for i, (p, q) in enumerate(zip(xs, ys)) if p != q), min(len(xs), len(ys)))
+                                print(' trait', a, b, 'first diff at', i)
+                                print('  hook :', ' '.join(xs[max(0, i-12):i+12]))
+                                print('  model:', ' '.join(ys[max(0, i-12):i+12]))
+                                break
+                    else:
+                        print(' hook :', h[:300]); print(' model:', m[:300])
+        print(cfg, 'items', len(items), 'disagree', bad)
+        for k, v in kinds.most_common(60):
+            print('   %5d %s' % (v, k))
+    
+
+if __name__ == '__main__':
+    main()
